@@ -64,7 +64,7 @@ def main():
                     detail = {"replay": rp, "error": str(e)}
             res["checks"][p] = {"exit": rc, "violations": len(viol), "kind": kind, "detail": detail, "wall_s": round(time.time() - t0, 1),
                                 "tail": out.strip().split("\n")[-1][:300]}
-            print(f"{res['mutant']} {p}: {'DETECTED (' + kind + ')' if viol else ('ERROR rc=' + str(rc) if rc not in (0, 1) else 'MISSED')}"
+            print(f"{res['mutant']} {p}: {'DETECTED (' + kind + ')' if viol else ('ERROR rc=' + str(rc) if (rc != 0) else 'MISSED')}"
                   + (f" clauses={detail.get('failed_clauses')} source={detail.get('source')!r} broken={detail.get('broken')}" if detail else ""), flush=True)
     finally:
         if not a.confirm_only:
